@@ -82,8 +82,13 @@ def snapshot(ws, tags, known=None):
             except Exception:
                 pidv = "unreadable"
         failedf = next((d / n for n in names if n.endswith(".failed")), None)
+        outf = next((d / n for n in names if n.endswith(".out")), None)
+        try:
+            outtext = outf.read_text()[:300] if outf is not None else None
+        except OSError:
+            outtext = None
         snap[str(t)] = dict(dir=str(d), done=any(n.endswith(".done") for n in names),
-                            failed=failedf is not None, pid=pidf is not None, pidvalue=pidv,
+                            failed=failedf is not None, pid=pidf is not None, pidvalue=pidv, out=outtext,
                             failedcode=(failedf.read_text()[:20] if failedf is not None else None))
     return snap
 
